@@ -478,6 +478,10 @@ def pipeline_cases(ctx: Ctx, r, per_kind):
             if j % 2 == 1 or j == 0:
                 # save_detector as a MODEL (in any group) writes the file; the loading pipeline first fills its detector
                 case.update(save="model", save_group=groups[(j + KINDS.index(kind)) % len(groups)], fill_running=True)
+            if j % 2 == 0:
+                # the model is executed in several readout steps of one exposure (the same unchanged file is loaded again
+                # after the detector was emptied): the LAST probe / the final state must still show the file's content
+                case["times"] = [1.0, 2.0] if j else [1.0, 2.0, 3.0]
             cases.append(case)
             if j == 0:
                 cases.append(dict(case, save=None, fill_running=True))
@@ -849,6 +853,7 @@ def account(ctx, units):
         if p["route"] == "pipeline":
             ctx.dist("pipeline_file_written_by", "save_detector model" if p.get("save") == "model" else "Detector.save")
             ctx.dist("pipeline_group", p.get("group"))
+            ctx.dist("pipeline_readout_steps", len(p.get("times") or [1.0]))
         ctx.dist("route", p["route"])
         ctx.dist("kind", p["spec"]["kind"])
         ctx.dist("n_initialised", len(p["spec"].get("init", {})))
